@@ -238,6 +238,16 @@ func (c *checker) router(s string, vr, vt, vd bool) {
 		}
 		run.Distinct(fmt.Sprintf("route/repo/valid=%v/reached=%v", vr, reached))
 	}
+	// as the repository of an upload start (the route is recognised by its suffix; the name may itself
+	// contain the routing words)
+	for _, suffix := range []string{"/blobs/uploads/", "/blobs/uploads"} {
+		_, calls, ok := c.serve("POST", "/v2/"+s+suffix)
+		reached := has(calls, func(cl *rec.Call) bool { return cl.Method == "PushBlobChunked" && cl.Repo == s })
+		if ok && reached != vr {
+			run.Violation(fmt.Sprintf("router-upload-start/%s/reached=%v", strClass(s), reached), fmt.Sprintf("POST /v2/%s%s: backend PushBlobChunked(repo=%q) reached=%v but IsValidRepository=%v", s, suffix, s, reached, vr), map[string]any{"name": s})
+		}
+		run.Distinct(fmt.Sprintf("route/upload-start/valid=%v/reached=%v", vr, reached))
+	}
 	// as the source repository of a cross-repository mount (a query parameter, not a path segment)
 	if s != "" {
 		c.query = "mount=" + url.QueryEscape("sha256:"+strings.Repeat("ab", 32)) + "&from=" + url.QueryEscape(s)
@@ -432,6 +442,13 @@ func main() {
 		if i%(nc/3+1) == 0 {
 			run.Sample("converse", fmt.Sprintf("%+v", ref))
 		}
+	}
+	// repository names made of the routing layer's own words, adjacent and in order
+	for _, s := range []string{"mirror/blobs/uploads", "blobs/uploads", "x/blobs/uploads/y", "mirror/blobs/uploads-v2/cache", "a/blobs/uploads/b/blobs/uploads",
+		"manifests/tags/list", "a/tags/list/b", "tags/list", "v2/_catalog", "v2", "x/manifests/y", "x/referrers/y", "blobs", "uploads", "a/blobs/b", "a/manifests",
+		"x/blobs/uploads/blobs", "referrers", "_catalog", "x/_catalog"} {
+		all(s, true)
+		run.Count("routing_word_names", 1)
 	}
 	run.FloorCounter("parse_accepted", 1000)
 	run.FloorCounter("parse_rejected", 1000)
